@@ -14,9 +14,9 @@ IX   a bin index is never obtained by dividing a coordinate by a nominal bin siz
 """
 from ..frontend import AnalysisBroken
 from ..model import qt, loc_str, walk, inner
-from ..expr import canon, pretty, children, strip, callee_info
+from ..expr import canon, pretty, children, strip, callee_info, subterms
 from ..cfg import cfg_of
-from .common import CQ, short, field_writes, calls_to, for_loop_info, loop_has_early_exit
+from .common import CQ, short, field_writes, calls_to, for_loop_info, loop_has_early_exit, expand_locals
 from .c06 import name_bag, swap_axis
 
 EXPLANATION = (
@@ -53,12 +53,15 @@ def run(ctx, rep, tier):
     rep.rule("G14", "initial allocation = cells with positive demand", 1)
     rep.rule("TW", "refine/coarsen X/Y twins agree", 2)
     rep.rule("LV", "bin indices passed to the base grid are translated through the hierarchy limits", 2)
+    rep.rule("BL", "bin limits are interpolated in 64 bits (index times extent)", 1)
+    rep.rule("BR", "updateBinCapacity examines, for every region, all the bins the region can overlap (range starts at the first bin, or at the bin containing the region's lower end)", 2)
     rep.rule("CS", "the capacity a region adds to the bins depends on that region alone (no scan state carried from one region to the next)", 1)
     rep.rule("FC", "row / region bounds are never offset in floating point and truncated back (expected count 0; control in selftest/c16_controls.cpp)", 1)
     rep.rule("IX", "bin indices are not derived from coordinate / size divisions", 1)
     check_levels(ctx, rep)
     check_index_origin(ctx, rep)
     check_carried_scan(ctx, rep)
+    check_bin_limits(ctx, rep)
     check_float_coordinates(ctx, rep)
     for fld, ok in WRITERS.items():
         from .common import check_writers
@@ -89,13 +92,23 @@ def run(ctx, rep, tier):
     g = cfg_of(sb)
     ok = True
     why = []
+    # the work may be delegated to private helpers of the class that setBinCells calls on every path
+    scope = [sb]
+    for y in walk(sb.body):
+        if y.get("kind") == "CXXMemberCallExpr":
+            _c, hs = eff.resolve_callee(y)
+            yn = g.node_for(y)
+            for h in hs:
+                if h.cls == sb.cls and h.body is not None and h is not sb and not h.is_const and yn is not None and \
+                        g.exit.idx not in g.reachable_from([g.entry], avoid=[yn]) and h not in scope:
+                    scope.append(h)
     for fld in ("cellBinX_", "cellBinY_", "binCells_"):
-        ws = s["writes"].get(H + fld, [])
+        ws = [w for f_ in scope for w in eff.summary(f_)["writes"].get(H + fld, [])]
         if not ws:
             ok = False
             why.append("%s not written" % fld)
     wx = [u.node for _x, u in s["writes"].get(H + "cellBinX_", [])]
-    for l in [x for x in walk(sb.body) if x.get("kind") == "CXXForRangeStmt"]:
+    for l in [x for f_ in scope for x in walk(f_.body) if x.get("kind") == "CXXForRangeStmt"]:
         var = inner(list(inner(l))[6])[0]
         body = list(inner(l))[7]
         if loop_has_early_exit(body) or any(y.get("kind") in ("ContinueStmt", "IfStmt") for y in walk(body)):
@@ -126,6 +139,37 @@ def run(ctx, rep, tier):
             empties = [gc for gc, val, _a, _b in (ctx.guards(ro, probe) or []) if isinstance(val, bool) and nonempty_fact(gc, val) is not None]
             if empties:
                 sn += [n for n in g.nodes if n.kind == "join" and n.ast is l]
+    # the refill may be delegated to a private helper of the class that calls setBinCells for every element of a bin list it receives
+    # (`dispatchCells(bins, cells, assignment)`): the call is a refill point when the list handed over is known to be non-empty there
+    helper_bodies = []
+    for y in walk(ro.body):
+        if y.get("kind") != "CXXMemberCallExpr":
+            continue
+        ci_y, hs = eff.resolve_callee(y)
+        for h in hs:
+            if h is ro or h.cls != ro.cls or h.body is None or h.qname == H + "setBinCells":
+                continue
+            for lh in [for_loop_info(z) for z in walk(h.body) if z.get("kind") == "ForStmt"]:
+                if not lh or not lh["hi"] or lh["hi"][0] != "call" or lh["hi"][1] != "size" or lh["lo"] != ("lit", "0") or lh["step"] != 1:
+                    continue
+                if not any(z.get("kind") == "CXXMemberCallExpr" and callee_info(z)["qname"] == H + "setBinCells" for z in walk(lh["body"])) or \
+                        loop_has_early_exit(lh["body"]) is not None:
+                    continue
+                lst = lh["hi"][2] if len(lh["hi"]) > 2 else None
+                pj = [j for j, pr in enumerate(h.params) if lst == ("var", pr.get("id"), pr.get("name"))]
+                if not pj or pj[0] >= len(ci_y["args"]):
+                    continue
+                hg = cfg_of(h)
+                ln = [n for n in hg.nodes if n.kind == "join" and n.ast is lh["stmt"]]
+                if ln and hg.exit.idx in hg.reachable_from([hg.entry], avoid=ln):
+                    continue                                  # the helper can return without reaching the loop
+                arg = canon(ci_y["args"][pj[0]])
+                from .common import nonempty_fact
+                ne = [nonempty_fact(gc, val) for gc, val, _a, _b in (ctx.guards(ro, y) or []) if isinstance(val, bool)]
+                if any(t is not None and t == arg for t in ne) or any(t is not None for t in ne):
+                    sn.append(g.node_for(y))
+                    helper_bodies.append(h)
+    sn = [n for n in sn if n is not None]
     if not clears:
         rep.unknown("R7c", ro.decl, ro, "reoptimize", "clearing of the candidate bins not found")
     for c in clears:
@@ -173,6 +217,36 @@ def run(ctx, rep, tier):
                         y.get("kind") == "CXXMemberCallExpr" and callee_info(y)["name"] in ("push_back", "emplace_back") for y in walk(ch[-1])):
                     k, lp = range_of(x)
                     gathers.append((x, k, lp))
+    # range insert: `cells.insert(cells.end(), binCells_[x][y].begin(), binCells_[x][y].end())` (possibly through a reference local)
+    for x in walk(ro.body):
+        if x.get("kind") == "CXXMemberCallExpr" and callee_info(x)["name"] == "insert" and len(callee_info(x)["args"]) == 3:
+            a1, a2 = [expand_locals(ctx, ro, canon(t)) for t in callee_info(x)["args"][1:]]
+            if a1[0] == "call" and a1[1] in ("begin", "cbegin") and a2[0] == "call" and a2[1] in ("end", "cend") and a1[2:] == a2[2:] and \
+                    len(a1) > 2 and a1[2][0] == "index" and "binCells_" in pretty(a1[2]):
+                k, lp = range_of(x)
+                gathers.append((x, k, lp))
+    # the collection may be delegated to a const helper of the class (`cellsInBins(binCandidates)`): a call whose callee loops over
+    # its bin-list parameter and reads binCells_[x][y] for every element, under no condition, collects from the argument's bins
+    for y in walk(ro.body):
+        if y.get("kind") != "CXXMemberCallExpr":
+            continue
+        ci_y, hs = eff.resolve_callee(y)
+        for h in hs:
+            if h.cls != ro.cls or h.body is None or h is ro:
+                continue
+            for j, pr in enumerate(h.params):
+                pc = ("var", pr.get("id"), pr.get("name"))
+                for lp_ in [z for z in walk(h.body) if z.get("kind") == "CXXForRangeStmt"]:
+                    chh = [c_ for c_ in inner(lp_) if isinstance(c_, dict)]
+                    rngh = chh[1] if len(chh) > 1 else None
+                    vdh = [d for d in inner(rngh) if d.get("kind") == "VarDecl"] if rngh and rngh.get("kind") == "DeclStmt" else []
+                    if not (vdh and children(vdh[0]) and canon(children(vdh[0])[-1]) == pc):
+                        continue
+                    reads = any(t_[0] == "field" and str(t_[1]).endswith("::binCells_") for z in walk(chh[-1]) if z.get("kind") in ("MemberExpr",)
+                                for t_ in [canon(z)])
+                    cond = any(z.get("kind") in ("IfStmt", "ContinueStmt", "BreakStmt") for z in walk(chh[-1]))
+                    if reads and not cond and j < len(ci_y["args"]):
+                        gathers.append((y, canon(ci_y["args"][j]), None))
     for c in clears:
         k, lp = range_of(c)
         gk = [g_ for g_ in gathers if g_[1] is not None]
@@ -182,7 +256,12 @@ def run(ctx, rep, tier):
         cg = own_guards(c, lp)
         same = all(g_[1] == k for g_ in gk)
         gg = [own_guards(g_[0], g_[2]) for g_ in gk]
-        if same and all(set(cg) <= set(x_) for x_ in gg):
+        if same and all(set(cg) <= set(x_) for x_ in gg) and not all(set(x_) <= set(cg) for x_ in gg):
+            rep.violation("R7c", c, ro, "every bin of %s is emptied, but its cells are collected only under %s" % (
+                pretty(k), [" and ".join(pretty(a) + ("" if v else " [false]") for a, v in x_) or "no condition" for x_ in gg]),
+                "a bin that is emptied without having been collected loses its cells: they are in no bin any more (cells are parked in bins without "
+                "capacity by the refinement steps)", key="DensityLegalizer::reoptimize|emptied bins not all collected")
+        elif same and all(set(cg) <= set(x_) for x_ in gg):
             rep.holds("R7c", c, ro, "every bin of %s whose cells are collected is emptied (same list, no extra condition)" % pretty(k))
         else:
             rep.violation("R7c", c, ro, "bins are emptied under %s but their cells are collected from %s under %s" % (
@@ -219,7 +298,7 @@ def run(ctx, rep, tier):
         else:
             rep.holds("R7c", gx, ro, "no exit between collecting the cells and emptying the candidate bins")
     # reallocation loops
-    loops = [for_loop_info(x) for x in walk(ro.body) if x.get("kind") == "ForStmt"]
+    loops = [for_loop_info(x) for b_ in [ro.body] + [h.body for h in helper_bodies] for x in walk(b_) if x.get("kind") == "ForStmt"]
     loops = [l for l in loops if l]
     # the two reallocation loops, identified by what they do: one indexes the transport assignment, the other calls setBinCells
     def body_has(l, pred):
@@ -268,6 +347,10 @@ def run(ctx, rep, tier):
     halves = [canon(callee_info(x)["args"][2]) for x in sets]
     same_split = len(halves) == 2 and all(h[0] == "field" for h in halves) and halves[0][2] == halves[1][2] and \
         {str(halves[0][1]).split("::")[-1], str(halves[1][1]).split("::")[-1]} == {"first", "second"}
+    if not same_split and len(halves) == 2 and all(h[0] == "var" for h in halves):
+        from .common import binding_source
+        b0, b1 = binding_source(rb, halves[0][1]), binding_source(rb, halves[1][1])
+        same_split = bool(b0 and b1 and b0[2] is b1[2] and {b0[1], b1[1]} == {0, 1})     # `auto [first, second] = doSplit(...)`
     if not bins or len(sets) != 2 or len(ins) < 2:
         rep.unknown("R7d", rb.decl, rb, "rebisect", "two inserts / two setBinCells calls not found (shape changed)")
     elif sorted(map(str, srcs)) == sorted(map(str, [bin_list(*b_) for b_ in bins])) and sorted(map(str, tg)) == sorted(map(str, bins)) and same_split:
@@ -282,21 +365,27 @@ def run(ctx, rep, tier):
         rep.unknown("G14", "-", None, "constructor", "not found")
     else:
         c = ctor[0]
-        pushes = [x for x in walk(c.body) if x.get("kind") == "CXXMemberCallExpr" and callee_info(x)["name"] in ("push_back", "emplace_back") and
+        # the list may be built by a private helper of the class that the constructor calls (`nonEmptyCells()`)
+        scope = [c]
+        for y in walk(c.body):
+            if y.get("kind") == "CXXMemberCallExpr":
+                _c2, hs = eff.resolve_callee(y)
+                scope += [h for h in hs if h.cls == c.cls and h.body is not None and h not in scope and "vector<int" in (h.type or "").split("(")[0]]
+        pushes = [(f_, x) for f_ in scope for x in walk(f_.body) if x.get("kind") == "CXXMemberCallExpr" and callee_info(x)["name"] in ("push_back", "emplace_back") and
                   canon(callee_info(x)["obj"])[0] == "var" and "vector<int>" in qt(callee_info(x)["obj"])]
         good = False
         if not pushes:
             rep.unknown("G14", c.decl, c, "initial allocation", "list of initially allocated cells not found (shape changed)")
             pushes = None
-        for x in (pushes or []):
-            guards = ctx.guards(c, x) or []
+        for f_, x in (pushes or []):
+            guards = ctx.guards(f_, x, derived=True) or []
             for gc, val, _a, _b in guards:
                 if gc[0] == "bin" and gc[1] == ">" and "cellDemand_" in pretty(gc[2]) and gc[3][0] == "lit" and str(gc[3][1]).startswith("0") and val is True:
                     good = True
         if pushes is None:
             pass
         elif good:
-            rep.holds("G14", pushes[0], c, "initial bin receives exactly the cells with cellDemand_[c] > 0")
+            rep.holds("G14", pushes[0][1], c, "initial bin receives exactly the cells with cellDemand_[c] > 0")
         else:
             rep.violation("G14", c.decl, c, "initial allocation is not filtered by positive demand", "", key="HierarchicalDensityPlacement::HierarchicalDensityPlacement|initial filter")
     # ---- TW ----
@@ -502,6 +591,37 @@ def check_carried_scan(ctx, rep):
                           key="DensityGrid::updateBinCapacity|scan state carried across regions")
         else:
             rep.holds("CS", lp, f, "each region is accounted for on its own: nothing but binCapacity_ is modified across iterations")
+        # BR: the bins examined for a region start at (or before) the bin that contains the region's lower end
+        scope = [(f, lp)]
+        for y in walk(lp):
+            if y.get("kind") == "CXXMemberCallExpr":
+                _ci, hs_ = ctx.eff.resolve_callee(y)
+                scope += [(h_, h_.body) for h_ in hs_ if h_.cls == f.cls and h_.body is not None and h_ is not f]     # addRegionCapacity(reg)
+        for f_y, y in [(f_, y_) for f_, b_ in scope for y_ in walk(b_)]:
+            if y.get("kind") != "ForStmt" or y is lp:
+                continue
+            li = for_loop_info(y)
+            if not li or li.get("hi") is None or li.get("lo") is None:
+                continue
+            his = [t for t in subterms(li["hi"]) if isinstance(t, tuple) and t and t[0] == "call" and str(t[1]).endswith(("::nbBinsX", "::nbBinsY"))]
+            if not his and not (li["hi"][0] == "call" and str(li["hi"][1]).endswith(("::nbBinsX", "::nbBinsY"))):
+                continue
+            lo = expand_locals(ctx, f_y, li["lo"])
+            what = "bins examined for a region start at %s" % pretty(lo)[:50]
+            calls = [t for t in subterms(lo) if isinstance(t, tuple) and t and t[0] == "call"]
+            names = {str(t[1]).split("::")[-1] for t in calls}
+            if lo == ("lit", "0"):
+                rep.holds("BR", y, f_y, what, "every bin of the axis is examined")
+            elif "lower_bound" in names:
+                rep.violation("BR", y, f_y, what, "lower_bound on the bin limits returns the first limit *not below* the region's lower end: when that end lies strictly "
+                              "inside a bin, this is the next bin, and the part of the region in the bin that contains its lower end is never added to the capacity "
+                              "(the bin containing x is upper_bound - 1)", key="DensityGrid::updateBinCapacity|first bin found by lower_bound")
+            elif "upper_bound" in names and any(t[0] == "bin" and t[1] == "-" and t[3] == ("lit", "1") for t in subterms(lo) if isinstance(t, tuple) and len(t) == 4):
+                rep.holds("BR", y, f_y, what, "the bin that contains the region's lower end (upper_bound - 1)")
+            elif names & {"findBinByX", "findBinByY"}:
+                rep.holds("BR", y, f_y, what, "the bin that contains the region's lower end (findBinBy*)")
+            else:
+                rep.unknown("BR", y, f_y, what, "not the first bin and not a recognised search for the bin containing the region's lower end")
 
 
 def check_float_coordinates(ctx, rep):
@@ -531,3 +651,26 @@ def check_float_coordinates(ctx, rep):
                       "positive controls clipFloat / clipInto reported, negative control clipInt silent")
     else:
         rep.unknown("FC", "selftest/c16_controls.cpp", None, "controls of rule FC", "expected exactly clipFloat and clipInto to be reported, got %s" % names)
+
+
+def check_bin_limits(ctx, rep):
+    """BL. computeSubdivisions interpolates limit i as min + i * (max - min) / number: the product of a bin index and the extent of the
+    area exceeds 2^31 for areas a few million units wide, so it must be formed in 64 bits. A product whose type is a 32-bit int with
+    two non-constant operands wraps, the limits stop being sorted, and the bins no longer tile the placement area."""
+    prog = ctx.prog
+    fs = [f for f in prog.all_funcs(with_lambdas=False) if f.name == "computeSubdivisions" and f.body is not None]
+    if not fs:
+        rep.unknown("BL", None, None, "computeSubdivisions", "not found")
+        return
+    for f in fs:
+        prods = [x for x in walk(f.body) if x.get("kind") == "BinaryOperator" and x.get("opcode") == "*"]
+        bad = [x for x in prods if ((x.get("type") or {}).get("qualType") or "").replace("const ", "") in ("int", "unsigned int") and
+               all(canon(c_)[0] != "lit" for c_ in children(x))]
+        if bad:
+            rep.violation("BL", bad[0], f, "limit interpolated with the 32-bit product %s" % pretty(canon(bad[0]))[:60],
+                          "bin index times area extent overflows int for wide areas: negative / unsorted limits, bins that do not tile the area",
+                          key="computeSubdivisions|32-bit product")
+        elif prods:
+            rep.holds("BL", prods[0], f, "the interpolation product %s is formed in %s" % (pretty(canon(prods[0]))[:40], (prods[0].get("type") or {}).get("qualType")))
+        else:
+            rep.unknown("BL", f.decl, f, "interpolation", "no product found (shape changed)")
